@@ -10,7 +10,7 @@ use crate::model::Model;
 use crate::verdict::Ctx;
 
 pub fn run(ctx: &Ctx) -> i32 {
-    let sizes = Sizes { random: (4000, 40_000), deep: (500, 5000), level0_only: false, max_levels: 16, budget: 40_000 };
+    let sizes = Sizes { random: (4000, 150_000), deep: (500, 20_000), level0_only: false, max_levels: 16, budget: 40_000 };
     let per_file = ctx.tier.pick(40, 200);
     for_each_file(ctx, &sizes, |b, rng| {
         let prefixes = gen_prefixes(rng, &b.entries, per_file);
